@@ -3,6 +3,8 @@ import itertools
 import multiprocessing
 import os
 
+from .core import HarnessError
+
 _FN = None
 
 
@@ -36,13 +38,29 @@ def pmap(fn, items, cores, ordered=True):
     _FN = None
 
 
+def guarded(check_case):
+    """An exception escaping the code under test on an enumerated case is a verdict, not a harness error."""
+    def f(case):
+        try:
+            return check_case(case)
+        except HarnessError:
+            raise
+        except Exception as e:
+            import traceback
+            tb = traceback.extract_tb(e.__traceback__)
+            where = next((fr for fr in reversed(tb) if "/jellyfysh/" in fr.filename), tb[-1])
+            return None, [("uncaught-exception", "%r raised at %s:%d (%s) on case %r"
+                           % (e, where.filename, where.lineno, where.name, case))]
+    return f
+
+
 def run_cases(check_case, cases, cores, chunk=2000, max_fail=200):
     """Lattice driver. check_case(case) -> (signature or None, [(key, message), ...]).
     Returns (evaluations, set of signatures, failures [(key, case, message)])."""
     def work(block):
         sigs, fails = set(), []
         for case in block:
-            sig, bad = check_case(case)
+            sig, bad = guarded(check_case)(case)
             if sig is not None:
                 sigs.add(sig)
             for key, msg in bad:
